@@ -35,14 +35,18 @@ from vlib.core import HarnessError, Violation, collect, hyp_search, run_plain
 PROPERTY = "C05"
 LEVEL = "exploration"
 EXHAUSTIVE = False
-RULE = ("per sink (see `sinks` in evidence) x variant (shape kind / chart type / category depth+level / "
-        "add_chart vs replace_data ...) Hypothesis draws non-empty strings over the XML Char production, "
-        "token-built and biased to & < > \" ' , attribute breakers, element/comment/CDATA/PI fragments, "
-        "entity look-alikes, %/{} format directives, CR/LF/TAB, blanks; file-name sinks get real files with "
-        "the generated base name (no '/'). Every case is executed on a fresh deck: call, readers, save, "
-        "independent parse of every part, re-open, readers, skeleton comparison with the benign twin. "
-        "Non-trivial: the string holds at least one of & < > \" ' or CR; distinct by (sink, variant, string). "
-        "Plus the enumeration of all MSO_SHAPE members through add_shape (template-substituted base names).")
+RULE = ("20 string sinks (`sinks` in evidence) x 373 variants (shape kind / placeholder kind / chart type x add_chart "
+        "vs replace_data x series index / category depth 1-4 x level / date vs numeric categories ...); every sink "
+        "gets 192 (quick) / 4800 (thorough) strings spread over 32 shards, at least 4 / 30 per variant. Hypothesis "
+        "draws non-empty strings over the XML Char production, token-built and biased to & < > \" ' , attribute "
+        "breakers, element/comment/CDATA/PI fragments, entity look-alikes, %/{} format directives, CR/LF/TAB, "
+        "blank edges; shards use 1, 2 or 3 tokens at least; file-name sinks get real files with the generated "
+        "base name (no '/'). Every case runs on a fresh deck: call, readers, save, plain-lxml parse of every XML "
+        "member, re-open, readers, skeleton comparison with the benign twin ('x'). Non-trivial: the string holds "
+        "at least one of & < > \" ' or CR; distinct by (sink, variant, string); a string repeated by Hypothesis "
+        "within one (sink, variant) search is executed once (`discarded` counts the repeats). Plus the "
+        "enumeration of all MSO_SHAPE members through add_shape (library base names with markup characters "
+        "substituted into the p:sp template).")
 ASSUMPTIONS = [
     "strings are non-empty (the empty string is a documented 'remove' value at several sinks) and at most "
     "255 code points (core properties) / 200 UTF-8 bytes (file names)",
@@ -59,10 +63,9 @@ NS = {
     "c": "http://schemas.openxmlformats.org/drawingml/2006/chart",
     "r": "http://schemas.openxmlformats.org/officeDocument/2006/relationships",
 }
-_XP = etree.XPath  # plain lxml xpath (pptx element classes override .xpath())
-
 
 def xp(el, expr):
+    """plain lxml XPath with prefixes (pptx element classes override .xpath())"""
     return etree.XPath(expr, namespaces=NS)(el)
 
 
@@ -124,13 +127,13 @@ SINKS = {}
 
 
 class Sink:
-    def __init__(self, name, fn, variants, fname, max_len, cost):
-        self.name, self.fn, self.variants, self.fname, self.max_len, self.cost = name, fn, variants, fname, max_len, cost
+    def __init__(self, name, fn, variants, fname, max_len):
+        self.name, self.fn, self.variants, self.fname, self.max_len = name, fn, variants, fname, max_len
 
 
-def sink(name, variants=(None,), fname=False, max_len=80, cost=1):
+def sink(name, variants=(None,), fname=False, max_len=80):
     def deco(fn):
-        SINKS[name] = Sink(name, fn, list(variants), fname, max_len, cost)
+        SINKS[name] = Sink(name, fn, list(variants), fname, max_len)
         return fn
     return deco
 
@@ -189,10 +192,6 @@ def _ct(name):
     return getattr(XL_CHART_TYPE, name)
 
 
-def _is_xy(t):
-    return t.startswith("XY_") or t.startswith("BUBBLE")
-
-
 def _data_for(t, **kw):
     if t.startswith("BUBBLE"):
         return _xy_data("bubble", **{k: v for k, v in kw.items() if k != "cats"})
@@ -216,7 +215,7 @@ def _descr(shape):
 # ---- names set through the property (lxml attribute assignment)
 
 @sink("shape.name", variants=["autoshape", "textbox", "picture", "connector", "group", "freeform", "table", "chart",
-                              "ole", "movie", "placeholder", "group-child"], cost=1)
+                              "ole", "movie", "placeholder", "group-child"])
 def _shape_name(env, v, s):
     from pptx.enum.shapes import MSO_CONNECTOR, MSO_SHAPE
 
@@ -300,7 +299,7 @@ def _ph_pic_name(env, v, s):
                  ("descr", lambda p: _descr(p.slides[idx].shapes[0]), "pic.png")]
 
 
-@sink("new_graphicFrame.name", variants=["table", "chart"], cost=2)
+@sink("new_graphicFrame.name", variants=["table", "chart"])
 def _ph_gf_name(env, v, s):
     prs, slide, idx = _ph_deck(v)
     ph = slide.shapes[0]
@@ -436,8 +435,8 @@ def _add_chart(slide, t, data):
 
 
 @sink("series.name", variants=[[t, m, k] for t in CAT_TYPES + XY_TYPES for m in ("add", "replace") for k in (0, 1)
-                               if not (t.startswith("PIE") and m == "add" and k == 1)],  # a new pie chart stores its first series only
-      cost=3)
+                               # (a new pie chart stores its first series only)
+                               if not (t.startswith("PIE") and m == "add" and k == 1)])
 def _ser_name(env, v, s):
     t, mode, k = v
     prs, slide = _prs()
@@ -492,7 +491,7 @@ CAT_LABEL_TYPES = ["BAR_CLUSTERED", "LINE", "PIE", "AREA", "DOUGHNUT", "RADAR", 
 
 
 @sink("category.label", variants=[[t, m, d, l] for t in CAT_LABEL_TYPES for m in ("add", "replace")
-                                  for d in (1, 2, 3, 4) for l in range(1, d + 1)], cost=3)
+                                  for d in (1, 2, 3, 4) for l in range(1, d + 1)])
 def _cat_label(env, v, s):
     t, mode, depth, level = v
     prs, slide = _prs()
@@ -520,7 +519,7 @@ def _format_codes(p, under):
 
 
 @sink("chart_data.number_format", variants=[[t, m, w] for t in CAT_TYPES[::2] + XY_TYPES[::2]
-                                             for m in ("add", "replace") for w in ("chart_data", "series")], cost=3)
+                                             for m in ("add", "replace") for w in ("chart_data", "series")])
 def _cd_nf(env, v, s):
     t, mode, where = v
     prs, slide = _prs()
@@ -543,7 +542,7 @@ def _cd_nf(env, v, s):
 
 
 @sink("categories.number_format", variants=[[t, m, k] for t in DATE_AX_TYPES for m in ("add", "replace")
-                                             for k in ("date", "number")], cost=3)
+                                             for k in ("date", "number")])
 def _cats_nf(env, v, s):
     import datetime as dt
 
@@ -565,7 +564,7 @@ def _cats_nf(env, v, s):
     return prs, rds
 
 
-@sink("tick_labels.number_format", variants=["category_axis", "value_axis", "xy-category", "date_axis"], cost=2)
+@sink("tick_labels.number_format", variants=["category_axis", "value_axis", "xy-category", "date_axis"])
 def _tick_nf(env, v, s):
     import datetime as dt
 
@@ -582,7 +581,7 @@ def _tick_nf(env, v, s):
     return prs, [("number_format", lambda p: get(p).number_format, s)]
 
 
-@sink("data_labels.number_format", variants=["plot", "series"], cost=2)
+@sink("data_labels.number_format", variants=["plot", "series"])
 def _dl_nf(env, v, s):
     prs, slide = _prs()
     ch = _add_chart(slide, "BAR_CLUSTERED", _cat_data())
